@@ -73,6 +73,8 @@ def gen_script(rng, nh=None):
         codes = ["ignore", "cancel", "abandon"]
         base["fh_src"] = {c: rng.choice(codes) for c in ("POSITIVE_ACK_LIMIT_REACHED", "CHECK_LIMIT_REACHED") if rng.random() < 0.8}
         base["fh_dst"] = {c: rng.choice(codes) for c in ("POSITIVE_ACK_LIMIT_REACHED", "NAK_LIMIT_REACHED", "FILE_CHECKSUM_FAILURE", "CHECK_LIMIT_REACHED") if rng.random() < 0.6}
+    if rng.random() < 0.25:
+        base["fs"] = "native"  # (the library's own filestore class: one object per user, used for all of that user's transactions)
     hist = []
     for _ in range(nh if nh is not None else rng.choice([1, 1, 2, 3])):
         hist.append({"kind": rng.choice(H_KINDS), "mode": rng.choice(["ack", "unack"]), "closure": rng.random() < 0.5, "size": rng.choice([0, 3, 9, 25]),
@@ -80,6 +82,14 @@ def gen_script(rng, nh=None):
                      "pacing": rng.choice(PACINGS)})
     t = {"kind": rng.choice(T_KINDS), "mode": rng.choice(["ack", "unack"]), "closure": rng.random() < 0.5, "seed": rng.randrange(1 << 30), "at": rng.randrange(1, 7),
          "idw": rng.choice([2, 2, 1, 4]), "mib": gen_mib(rng), "pacing": rng.choice(PACINGS)}
+    for spec in hist + [t]:
+        if rng.random() < 0.3:
+            # the put request carries options (fault handler overrides for conditions the receiver can declare, filestore requests, a flow
+            # label) and messages to user: they belong to that one transaction
+            conds = ["FILE_CHECKSUM_FAILURE", "FILE_SIZE_ERROR", "NAK_LIMIT_REACHED", "POSITIVE_ACK_LIMIT_REACHED", "CHECK_LIMIT_REACHED", "FILESTORE_REJECTION"]
+            spec["opts"] = {"overrides": [[c, rng.choice(["IGNORE_ERROR", "NOTICE_OF_CANCELLATION", "ABANDON_TRANSACTION"])] for c in conds if rng.random() < 0.6],
+                            "fs_requests": rng.choice([0, 0, 2]), "flow_label": rng.choice([None, "", "0a0b"])}
+            spec["msgs"] = rng.choice([None, [["raw", "80818283848586"]], [["orig", 5, 2, 7, 2], ["raw", "0102030405"]]])
     return {"base": base, "hist": hist, "t": t}
 
 
@@ -107,6 +117,18 @@ def gen_cases(tier, seed):
         sc["base"]["fh_dst"] = dict(sc["base"].get("fh_dst") or {}, FILE_SIZE_ERROR="abandon")
         sc["base"].setdefault("fh_src", {})
         sc["hist"][-1].update({"kind": "abandon_queued", "mode": "ack"})
+        cases.append({"t": "history", "script": sc})
+    # directed: the user's source file was rewritten in place since it was last sent (same name, same length, other bytes), and the same
+    # filestore object serves both transfers
+    for i in range(60 if tier == "quick" else 600):
+        sc = gen_script(rng, nh=rng.choice([1, 2]))
+        sc["base"].update({"fs": rng.choice(["native", "native", "mem"]), "cks": rng.choice(["crc32", "crc32c", "modular"])})
+        tk = rng.choice(["small", "multi_loss", "silenced", "multi_random"])
+        tsize = {"small": 3, "multi_loss": 23, "silenced": 9, "multi_random": 29}[tk]
+        sc["t"].update({"kind": tk})
+        sc["t"]["mib"]["crc_type"] = rng.choice(["crc32", "crc32c", "modular"])
+        sc["hist"][-1].update({"kind": rng.choice(["completed", "completed", "lossy", "cancel_S"]), "size": tsize, "mib": dict(sc["t"]["mib"])})
+        sc["same_size_as_before"] = True
         cases.append({"t": "history", "script": sc})
     n = 300 if tier == "quick" else 8000
     for i in range(n):
@@ -150,6 +172,7 @@ def setup_transaction(w: World, spec, kind, content_tag):
     for rc in (w.rc_dst_at_src, w.rc_src_at_dst):
         for k, v in (spec.get("mib") or {}).items():
             setattr(rc, k, CKS[v] if k == "crc_type" else v)
+    w.cfg["opts"], w.cfg["msgs"] = spec.get("opts"), spec.get("msgs")
     w.cfg["req_mode"] = spec["mode"]
     w.cfg["req_closure"] = spec["closure"]
     w.cfg["mode"] = spec["mode"]  # (oracle helpers read the effective mode from here)
@@ -186,16 +209,22 @@ def setup_transaction(w: World, spec, kind, content_tag):
 
 def t_trace(w: World, mark: int):
     out = []
+    # with the native filestore the path names contain the name of this world's scratch directory: it is replaced by a fixed word (and the
+    # PDU CRC, which covers it, is left out of such PDUs) so that runs in different directories compare equal
+    sb = w.sandbox.name if w.sandbox is not None else None
     for e in w.log.events:
         if e["seq"] < mark:
             continue
         k = e["kind"]
         if k in ("tx", "tx_shell"):
-            out.append((e["side"], k, e["raw"]))
+            raw = e["raw"]
+            if sb is not None and raw is not None and sb.encode() in raw:
+                raw = (raw[:-2] if raw[0] & 0x02 else raw).replace(sb.encode(), b"SANDBOX")
+            out.append((e["side"], k, raw))
         elif k.startswith("ind_") or k == "fh":
-            out.append((e["side"], k, tuple(sorted((a, repr(b)) for a, b in e.items() if a not in ("seq", "kind", "side")))))
+            out.append((e["side"], k, tuple(sorted((a, repr(b) if sb is None else repr(b).replace(sb, "SANDBOX")) for a, b in e.items() if a not in ("seq", "kind", "side")))))
         elif k == "exc":
-            out.append((e["side"], "exc", e["api"], e["etype"], e["msg"][:60]))
+            out.append((e["side"], "exc", e["api"], e["etype"], (e["msg"] if sb is None else e["msg"].replace(sb, "SANDBOX"))[:60]))
         elif k == "action":
             out.append((e["side"], "action", e["what"], e["res"]))
         elif k == "clock":
@@ -283,14 +312,27 @@ def solo(script):
     with World(dict(script["base"])) as w:
         notes = run_history(w, script["hist"])
         seq_before = w.seq_provider.count
-        left_dst = copy.deepcopy(w.dst_inner.files), set(w.dst_inner.dirs)
-        left_src = copy.deepcopy(w.src_inner.files), set(w.src_inner.dirs)
+        native = w.sandbox is not None
+        if native:
+            left = w.host_tree()
+        else:
+            left_dst = copy.deepcopy(w.dst_inner.files), set(w.dst_inner.dirs)
+            left_src = copy.deepcopy(w.src_inner.files), set(w.src_inner.dirs)
         tr_b, dest_b, r_b = run_t(w, script["t"])
         summary = trace_summary(w, r_b, 50)[-40:]
     base = dict(script["base"], seq_start=seq_before)
     with World(base) as w:
-        w.dst_inner.files, w.dst_inner.dirs = copy.deepcopy(left_dst[0]), set(left_dst[1])
-        w.src_inner.files, w.src_inner.dirs = copy.deepcopy(left_src[0]), set(left_src[1])
+        if native:
+            # the same leftover files, in the fresh user's own directory (and behind a filestore object of its own)
+            for rel, content in left.items():
+                if content == "DIR":
+                    (w.sandbox / rel).mkdir(parents=True, exist_ok=True)
+            for rel, content in left.items():
+                if content != "DIR":
+                    (w.sandbox / rel).write_bytes(content)
+        else:
+            w.dst_inner.files, w.dst_inner.dirs = copy.deepcopy(left_dst[0]), set(left_dst[1])
+            w.src_inner.files, w.src_inner.dirs = copy.deepcopy(left_src[0]), set(left_src[1])
         tr_a, dest_a, r_a = run_t(w, script["t"])
     return tr_a, dest_a, tr_b, dest_b, notes, summary
 
@@ -323,6 +365,9 @@ def run_history_case(case):
     for n in notes:
         obs["hist_" + n.split(":")[0]] = obs.get("hist_" + n.split(":")[0], 0) + 1
     obs["t_" + sc["t"]["kind"]] = 1
+    obs["histories_on_native_filestore"] = int(sc["base"].get("fs") == "native")
+    obs["source_file_rewritten_in_place_since_last_transfer"] = int(bool(sc.get("same_size_as_before")))
+    obs["transactions_with_put_request_options"] = sum(1 for x in sc["hist"] + [sc["t"]] if x.get("opts"))
     obs["trace_events_compared"] = len(tr_a)
     return {"viol": viol, "obs": obs, "sig": case, "sample": {"history": notes, "t": sc["t"], "events": len(tr_a)} if len(notes) > 2 else None}
 
@@ -578,4 +623,5 @@ def run_case(case):
 NO_DEV_MODE = True  # -X dev slows the LINE callbacks down by an order of magnitude
 
 REQUIRED = {"fresh_vs_reused_equal": 500, "sibling_traces_equal": 300, "thread_traces_equal": 50, "yields_injected": 1000, "sibling_switches": 1000,
-            "hist_completed": 50, "hist_cancel_S": 50, "hist_cancel_D": 50, "hist_limit": 50, "hist_abandon": 50, "hist_stuck_reset": 50, "hist_lossy": 50, "hist_reset_undrained": 50, "hist_abandon_queued": 40, "sibling_cases_interleaved_by_call": 50}
+            "hist_completed": 50, "hist_cancel_S": 50, "hist_cancel_D": 50, "hist_limit": 50, "hist_abandon": 50, "hist_stuck_reset": 50, "hist_lossy": 50, "hist_reset_undrained": 50, "hist_abandon_queued": 40, "sibling_cases_interleaved_by_call": 50,
+            "histories_on_native_filestore": 100, "source_file_rewritten_in_place_since_last_transfer": 40, "transactions_with_put_request_options": 200}
